@@ -10,17 +10,24 @@ Definition tstate := (attrs_t * list diag)%type.
 (* the three-argument user hook CopyTo<S>(diags, field, type, current) *)
 Definition hook_to_t := string -> goval -> tfty -> option tfval -> tfval.
 
-(* obj.<Parent> == nil *)
+(* obj.<Parent> == nil || obj.<Inner> == nil || ... : one of the nullable embedded messages the field is promoted
+   from is not set (each is reached through the ones before it) *)
+Fixpoint chain_nil (obj : goval) (ps : list string) : res bool :=
+  match ps with
+  | [] => Ok false
+  | p :: r =>
+      do pv <- gfield obj p;
+      match pv with
+      | GPtr None => Ok true
+      | GPtr (Some inner) => chain_nil inner r
+      | _ => Panic
+      end
+  end.
+
 Definition parent_is_nil (i : finfo) (obj : goval) : res (option bool) :=
   match fi_parent i with
   | None => Ok None
-  | Some (p, _) =>
-      do pv <- gfield obj p;
-      match pv with
-      | GPtr None => Ok (Some true)
-      | GPtr (Some _) => Ok (Some false)
-      | _ => Panic
-      end
+  | Some (p, _) => do b <- chain_nil obj (p :: map fst (fi_inner i)); Ok (Some b)
   end.
 
 (* the oneof stub (type assertion of obj.<OneOf> to the wrapper pointer), the holder being read only when the nullable embedded
@@ -258,7 +265,12 @@ Section CopyTo.
                 | _ => Ok (attrs, diag_append ds (WriteConv, path))
                 end
             | CustomKind, _ =>
-                do g <- gget_via obj (fi_via i) (fi_name i);
+                (* genEmbeddedSource: a field promoted from a nullable embedded message that is not set is
+                   read as the zero value of its Go type (the one the embedded message's zero struct holds) *)
+                do g <- (match fi_parent i with
+                         | Some (_, pzero) => do z <- gfield pzero (fi_name i); read_source i z obj
+                         | None => gget_via obj (fi_via i) (fi_name i)
+                         end);
                 Ok (update s (hook_to (fi_suffix i) g t cur) attrs, ds)
             | _, None => Panic    (* ill-formed IR: object kind without a message *)
             end
